@@ -232,6 +232,11 @@ def c09(tier, seed):
     sols = HEAT + EULER + NS + MISC + SA + CHEM
     cases, points = (1200, 8) if tier == "quick" else (6000, 16)
     shards = pde_shards(pde_exe("plain"), sols, seed, cases, points, "source,exact,grad", dl=True, tag="O0:")
+    if tier == "quick":
+        # the cheap one-dimensional solutions get five times the sample: rare parameter families (a stretched temperature in euler_chem_1d: seeded C09-m5) are
+        # otherwise met by about 2 % of 1200 cases
+        cheap = CHEM + ["euler_1d", "euler_transient_1d"] + [h for h in HEAT if h.startswith("heateq_1d")]
+        shards += pde_shards(pde_exe("plain"), cheap, seed + 7, 6000, points, "source,exact,grad", dl=True, tag="O0+:")
     # the closed-form solutions of C08 (Sod, conjugate normal) against their quad references, reporting for C09 (accuracy bound 2^14 u for the Sod states)
     exe_cl = build.build_bin("plain", "mon_closed", COMMON + ["mon_closed.cpp"], opt="-O2")
     ncl, kcl = (300, 2) if tier == "quick" else (10000, 8)
